@@ -32,6 +32,9 @@ def one(name, a):
         return name, "worktree: " + out[-200:]
     try:
         rc, out = sh(f"git apply {d}/patch.diff", cwd=wt)
+        if rc != 0:  # context shifted by a later fix commit: three-way
+            rc, out = sh(f"git apply -3 {d}/patch.diff && git reset -q", cwd=wt)
+            meta["applied_three_way"] = rc == 0
         if rc != 0:
             meta["patch_applies_on_head"] = False
             meta["recheck_error"] = out[-400:]
